@@ -1119,6 +1119,71 @@ def r17(R):
                         cur += [q["l"] for q, k in F.rv_places(d[3])]
         R.ob("C01-R17", "not-of-error:" + b.name, "%s never negates a sub-result that was collapsed to a bool" % b.name, not bad, where=b.where(bad[0][0] if bad else None),
              detail=None if not bad else "`!` is applied to a value obtained through %s: an error below becomes true" % ", ".join(sorted({v for _, v in bad})))
+    # (c) the three-valued connectives consult the right operand unless the left one decides: a helper (Option<bool>, FnOnce) -> Option<bool>
+    # may return without calling its right operand only on a path that positively tested the left operand to be `Some(..)`
+    nconn = 0
+    for k, b in sorted(prog.bodies.items()):
+        if b.crate != "kolibrie" or not b.file.endswith("streamertail_optimizer/types.rs") or b.is_closure or "::tests::" in k:
+            continue
+        at = b.arg_tys()
+        if len(at) != 2 or "Option<bool>" not in at[0] or "Option<bool>" not in b.local_ty(0):
+            continue
+        rcalls = [c for c in b.calls() if c.name() in ("call_once", "call_mut", "call") and c.args and F.op_place(c.args[0]) is not None and b.alias_root(c.args[0]) == 2]
+        nconn += 1
+        if not rcalls:
+            R.ob("C01-R17", "connective-consults-right:" + b.name, "%s consults its right operand" % b.name, False, where=b.where())
+            continue
+        rbbs = {c.bb for c in rcalls}
+        # blocks from which a return is reachable without passing a call of the right operand
+        skipping = []
+        for e in b.exits():
+            if b.blocks[e]["term"]["t"] != "return":
+                continue
+            # walk back from the return avoiding the right-operand calls; if the entry is reachable backwards, some path skips the call
+            seen, work = set(), [e]
+            while work:
+                x = work.pop()
+                if x in seen or x in rbbs:
+                    continue
+                seen.add(x)
+                work.extend(b.pred(x))
+            if 0 in seen:
+                skipping.append((e, seen))
+        bad = []
+        for e, region in skipping:
+            # every entry->return path inside `region` must cross an edge that shows left = Some(..): the Some edge of a discriminant switch on
+            # the left operand, or the true edge of `left == Some(c)`
+            ok_edges = set()
+            for bb in region:
+                t = b.blocks[bb]["term"]
+                if t["t"] != "switch":
+                    continue
+                for tgt, cd in G.edge_conditions(b, bb):
+                    if cd.get("kind") == "variant" and cd.get("variant") == "Some" and cd.get("pl") is not None and b.alias_root(cd["pl"]["l"]) == 1:
+                        ok_edges.add((bb, tgt))
+                    if cd.get("kind") == "call" and cd["call"].name() in ("eq",) and cd.get("truth") is True and \
+                            any(F.op_place(a) is not None and b.alias_root(a) == 1 for a in cd["call"].args):
+                        ok_edges.add((bb, tgt))
+            # is the return reachable from entry inside region without using an ok edge?
+            seen, work = set(), [0]
+            reached = False
+            while work:
+                x = work.pop()
+                if x in seen or x not in region:
+                    continue
+                seen.add(x)
+                if x == e:
+                    reached = True
+                    break
+                for s2 in b.succ(x):
+                    if (x, s2) not in ok_edges:
+                        work.append(s2)
+            if reached:
+                bad.append(e)
+        R.ob("C01-R17", "connective-consults-right:" + b.name, "%s returns without consulting its right operand only when the left operand decides" % b.name,
+             not bad, where=b.where(), detail=None if not bad else "on a path where the left operand is an error (None) the right operand is never evaluated: "
+             "`error && false` must be false and `error || true` must be true, so `!(?unbound > 1 && ?x = 2)` loses rows")
+    R.floor("C01-R17", "three-valued connective helpers", nconn, 2)
     # (b) comparators: no default number for an operand that is not a number
     cmps = set()
     for b in evs:
